@@ -76,6 +76,10 @@ def check(case):
     deltas = c.get("deltas", [1e-8] if int(cm.sha(text), 16) % 2 else [1e-3])
     dts = c.get("dts", DTS)
     for bk in c.get("backends", ["numpy"]):
+        if bk == "c" and ref.c_unsafe():
+            # an integer-literal quotient in the text: the C value of the rate itself is wrong (listed finding of C02), nothing to learn here
+            cm.note(res, "skipped:c:integer-quotient-territory(C02)")
+            continue
         def add(kind, what, inp, exp=None, act=None, detail=""):
             f = cm.fail(f"C07:{bk}:{kind}", what, dict(inp, backends=[bk]), exp, act, detail)
             if shr:
